@@ -364,7 +364,7 @@ theorem renderFinal_congr (fm₁ fm₂ : List Final) (h₁ : FOk fm₁) (h₂ : 
     renderFinal fm₁ = renderFinal fm₂ := by
   have p := allRows_perm_of_den fm₁ fm₂ h₁ h₂ h
   unfold renderFinal
-  rw [p.length_eq, renderResult_perm p, sumStats_of_den fm₁, sumStats_of_den fm₂, h]
+  rw [renderResult_perm p, sumStats_of_den fm₁, sumStats_of_den fm₂, h]
 
 /-- **fanin_perm** (C11, "the same rows and totals whatever … the goroutine schedule" and "the low-memory
     setting"): the rendered result — rows, totals, hits and the statistics the result carries — of the
@@ -1853,13 +1853,7 @@ theorem model_eq_spec (q : Query) (hist : List WriteOut) (wf : WF hist) (hr : ¬
   have p := seq_rows_eq_spec q Gen.WorkMgr.WorkBulkSize hist wf
   unfold seqAnswer renderFinal answer
   simp only [hr, if_false, hi, Bool.false_eq_true]
-  split
-  · rename_i h0
-    have : allRows (seqFinal q Gen.WorkMgr.WorkBulkSize hist) = [] := List.length_eq_zero_iff.mp h0
-    rw [this] at p
-    refine ⟨statsStr Stats.zero, ?_⟩
-    rw [renderResult_perm p]
-  · exact ⟨statsStr (sumStats (seqFinal q Gen.WorkMgr.WorkBulkSize hist)), by rw [renderResult_perm p]⟩
+  exact ⟨statsStr (sumStats (seqFinal q Gen.WorkMgr.WorkBulkSize hist)), by rw [renderResult_perm p]⟩
 
 
 def exW (ts : Int) (br : Nat) : WriteOut := ⟨"eth0", ts, 0, [⟨"0a000001", "c0a80101", 80, 6, br, 0, 1, 0⟩]⟩
